@@ -101,6 +101,7 @@ FALL = ('fall',)     # block completed normally
 
 class Evaluator:
     TRACE = set()          # qualified names of every package function consulted by any evaluator instance
+    DOMAIN = ()            # facts about the checks' symbolic inputs (e.g. "k is a valid scalar"); part of every evaluation
 
     def __init__(self, program: Program, backend='ecdsa', summaries=None, trace=False):
         assert backend in ('secp', 'ecdsa')
@@ -122,12 +123,13 @@ class Evaluator:
         self.sinks = []
         self.step_budget = 400000
         self.heap = {}         # stream id -> (data term, position term)
+        self.domain = tuple(Evaluator.DOMAIN)
 
     # ------------------------------------------------------------------ public API
     def call_function(self, qual, args=(), kwargs=None, facts=None, self_term=None):
         """Abstractly call package function `qual` ('bip32.PrvKeyNode.ckd').  Returns (value term, Facts)."""
         fi = self.p.get_function(qual)
-        facts = facts or Facts()
+        facts = self._with_domain(facts)
         args = list(args)
         if self_term is not None:
             args = [self_term] + args
@@ -135,7 +137,13 @@ class Evaluator:
 
     def construct(self, clsqual, args=(), kwargs=None, facts=None):
         ci = self.p.get_class(clsqual)
-        return self._construct(ci, list(args), dict(kwargs or {}), facts or Facts(), 0)
+        return self._construct(ci, list(args), dict(kwargs or {}), self._with_domain(facts), 0)
+
+    def _with_domain(self, facts):
+        facts = facts or Facts()
+        if self.domain:
+            facts = facts.union(Facts(self.domain))
+        return facts
 
     def new_stream(self, data, pos=None):
         sid = len(self.heap) + 1
@@ -149,7 +157,7 @@ class Evaluator:
         """Evaluate a statement list taken from function `qual` in the given environment.
         Returns (outcome, env, facts)."""
         fi = self.p.get_function(qual)
-        fr = Frame(fi, dict(env), facts or Facts(), fi.module, fi.cls, 0)
+        fr = Frame(fi, dict(env), self._with_domain(facts), fi.module, fi.cls, 0)
         self._stack.append(qual)
         try:
             res = self.block(stmts, fr)
@@ -768,7 +776,7 @@ class Evaluator:
                 out = T.or_(out, self.decide(x, fr))
             return out
         if T.is_op(c, 'LT') or T.is_op(c, 'EQ'):
-            a, b = c[2], c[3]
+            a, b = _num_const(c[2]), _num_const(c[3])
             if _is_int_const(a) and not _is_int_const(b):
                 lo, hi = bounds_of(b, fr.facts)
                 v = a[1]
@@ -1540,12 +1548,28 @@ def _is_int_const(t):
     return T.is_const(t) and isinstance(t[1], int) and not isinstance(t[1], bool)
 
 
+N_VALUE = 0xFFFFFFFFFFFFFFFFFFFFFFFFFFFFFFFEBAAEDCE6AF48A03BBFD25E8CD0364141     # order of secp256k1
+
+
+def _num_const(t):
+    """CURVE_ORDER is kept symbolic in terms (readable reports) but is a known number for interval reasoning."""
+    return T.const(N_VALUE) if t == T.CURVE_N else t
+
+
 def bounds_of(t, facts, _depth=0):
     """Inclusive integer bounds (lo, hi) for term t implied by comparison facts with constants
     (interval arithmetic through + and * by constants)."""
     lo = hi = None
+    t = _num_const(t)
     if _is_int_const(t):
         return t[1], t[1]
+    if T.is_op(t, 'INT') and len(t) >= 4 and T.is_const(t[3]) and t[3][1] in ('big', 'little') and len(t) == 4:
+        lo = 0
+        n = T.length_of(t[2])
+        if n is not None and n <= 64:
+            hi = 256 ** n - 1
+    elif T.is_op(t, 'SK_ADD_INT') or (T.is_op(t, 'MOD') and t[3] == T.CURVE_N):
+        lo, hi = 0, N_VALUE - 1
     if T.is_op(t, 'ADD') and _depth < 6:
         tl = th = 0
         for x in t[2:]:
@@ -1566,7 +1590,7 @@ def bounds_of(t, facts, _depth=0):
             neg = True
             g = g[2]
         if T.is_op(g, 'LT'):
-            a, b = g[2], g[3]
+            a, b = _num_const(g[2]), _num_const(g[3])
             if a == t and _is_int_const(b):
                 if not neg:      # t < c
                     hi = b[1] - 1 if hi is None else min(hi, b[1] - 1)
@@ -1583,6 +1607,17 @@ def bounds_of(t, facts, _depth=0):
                 lo = hi = b[1]
             elif b == t and _is_int_const(a):
                 lo = hi = a[1]
+    # a value excluded at the edge of the interval moves the edge
+    for _ in range(2):
+        for f in facts:
+            if T.is_op(f, 'NOT') and T.is_op(f[2], 'EQ'):
+                a, b = f[2][2], f[2][3]
+                c = a if (b == t and _is_int_const(a)) else (b if (a == t and _is_int_const(b)) else None)
+                if c is not None:
+                    if lo is not None and c[1] == lo:
+                        lo += 1
+                    if hi is not None and c[1] == hi:
+                        hi -= 1
     return lo, hi
 
 
